@@ -85,10 +85,13 @@ def main():
             evs = []
             for o in (1, 2):
                 evs += [ev_parse(o)] + [f(o) for f in past]
+            k0 = rng.randrange(N) if rng.random() < 0.2 else None      # the laws also hold on a monitor that was reset (seed C18-d)
             for t in range(N):
+                if t == k0:
+                    evs += [ev_reset(1), ev_reset(2)]
                 evs += [ev_update(t, sample_at(w, t), 1), ev_update(t, sample_at(w, t), 2)]
             fac = rng.choice(["StlDiscreteTimeSpecification", "StlDiscreteTimeOnlineSpecification"])
-            rels = [{"rel": "same_on_from", "x": 1, "y": 2, "k": h + 1}]
+            rels = [{"rel": "same_on_from", "x": 1, "y": 2, "k": h + 1}] if k0 is None else []
         else:
             w = gen_trace(rng, vs, N, S)
             evs = [ev_parse(1), ev_parse(2), ev_evaluate(range(N), w, 1), ev_evaluate(range(N), w, 2)]
